@@ -60,6 +60,40 @@ TOKENS = [
     (CSS_DECL, "css-charset"),
 ]
 
+# Legacy charsets of the alphabet and the superset / alias codec that may be substituted for them (mitmproxy reads
+# gb2312 and gbk as GB18030, WHATWG reads gb2312 as GBK). Where writer and reader pick different members of such a
+# pair, only the code points on which the two codecs disagree can tell: they are computed here by comparing the
+# codecs over the BMP and added to the token alphabet.
+LEGACY_PAIRS = [("gb2312", "gb18030"), ("gbk", "gb18030"), ("gb2312", "gbk")]
+PER_PAIR = 3
+
+
+def codec_disagreements(narrow, wide):
+    """characters the narrow codec can encode whose bytes the wide codec reads as something else (or not at all)"""
+    out = []
+    for cp in range(0x80, 0x10000):
+        if 0xD800 <= cp <= 0xDFFF:
+            continue
+        ch = chr(cp)
+        try:
+            b = ch.encode(narrow)
+        except UnicodeEncodeError:
+            continue
+        try:
+            back = b.decode(wide)
+        except UnicodeDecodeError:
+            back = None
+        if back != ch:
+            out.append(ch)
+    return out
+
+
+DISAGREE = {"%s/%s" % p: codec_disagreements(*p) for p in LEGACY_PAIRS}
+for _pair, _chars in sorted(DISAGREE.items()):
+    for _ch in _chars[:PER_PAIR]:
+        if _ch not in [t for t, _ in TOKENS]:
+            TOKENS.append((_ch, "U+%04X (%s differ)" % (ord(_ch), _pair)))
+
 # content type (None = no header) -> family used for features
 CTYPES = [
     (None, "none"),
@@ -78,7 +112,7 @@ CTYPES = [
 # are case-insensitive (RFC 9110 s5.6.6), values may be quoted, a parameter may be repeated
 PARAMS = [
     None, "charset=utf-8", "charset=latin-1", "charset=ascii", "charset=utf-16", "charset=utf-32", "charset=gb2312",
-    "charset=bogus", "charset=", 'charset="utf-8"',
+    "charset=gbk", "charset=bogus", "charset=", 'charset="utf-8"',
     "Charset=utf-8", "Charset=latin-1", "CHARSET=ascii", 'Charset="latin-1"',
     "charset=latin-1; charset=utf-8", "charset=utf-8; charset=latin-1",
 ]
@@ -332,12 +366,14 @@ def run(ctx):
     maxtok = ctx.pick(2, 3)
     # (message kind, content-encoding header present while the text is assigned and read, max tokens for this variant)
     variants = ctx.pick([["response", None, 2], ["response", "gzip", 1]],
-                        [["response", None, 3], ["response", "gzip", 3], ["request", None, 3]])
+                        [["response", None, 3], ["response", "gzip", 3], ["request", None, 2]])
     ctx.bounds = {
         "max_tokens": maxtok,
         "tokens": [n for _, n in TOKENS],
         "content_types": [c for c, _ in CTYPES],
         "content_type_parameters": PARAMS,
+        "legacy_codec_disagreements": {k: ["U+%04X" % ord(c) for c in v[:8]] + (["... %d in all" % len(v)] if len(v) > 8 else [])
+                                       for k, v in sorted(DISAGREE.items())},
         "message_kind_content_encoding_max_tokens": variants,
     }
     cases = list(gen_cases(maxtok, variants))
